@@ -848,6 +848,11 @@ void recordVariableEquivalences(const ComponentPtr &component, EquivalenceMap &e
                 indexStack.push_back(index);
             }
             auto equivalentVariable = variable->equivalentVariable(j);
+            // A variable outside the model of this variable (in another model, in a component without a model, or
+            // without a component) has no place in the hierarchy that the equivalences are recorded for.
+            if ((equivalentVariable->parent() == nullptr) || (owningModel(equivalentVariable) != owningModel(variable))) {
+                continue;
+            }
             auto equivalentVariableIndexStack = indexStackOf(equivalentVariable);
             if (equivalenceMap.count(indexStack) == 0) {
                 equivalenceMap.emplace(indexStack, std::vector<IndexStack>());
